@@ -25,7 +25,7 @@ META = dict(
               "element of the block against the closed formula, pairs s|d, p|f, 5d|6d, 5d|15g, 6d|9g, 5d|9g, 7f|21h, 7f|10f "
               "(thorough up to l = 7); D2: two centres with symbolic "
               "coordinates (s/p shells, rational exponents, symbolic contraction coefficients, exp as an uninterpreted "
-              "function): symmetry, transposition under exchange of the bases, invariance under a common translation, "
+              "function): symmetry, the same basis object at two geometries equals an equal copy, transposition under exchange of the bases, invariance under a common translation, "
               "row/column permutation under a change of conventions, zero block exactly when screened; rejection of L1 "
               "normalisation and of a missing / superfluous second geometry",
         thorough="B for l <= 7, D1 for l <= 3, D2 with d shells and generalized contractions"),
@@ -164,6 +164,7 @@ def _two_center_basis(ctx, B, C, tag, shells_spec, conv):
 
 SPEC_SMALL = [(0, [0], ["c"], [0.5, 2.0]), (1, [1], ["c"], [1.25])]
 SPEC_GEN = [(0, [0, 1], ["c", "c"], [0.5]), (1, [2], ["p"], [0.75])]
+SPEC_TINY = [(0, [0], ["c"], [0.5]), (1, [1], ["c"], [1.25])]
 
 
 def h_two_center(ctx, spec="small", prop="symmetric", twin=False):
@@ -171,11 +172,22 @@ def h_two_center(ctx, spec="small", prop="symmetric", twin=False):
     import iodata.basis as B
     import iodata.convert as C
     import iodata.overlap as OV
-    sp = SPEC_SMALL if spec == "small" else SPEC_GEN
+    sp = {"small": SPEC_SMALL, "gen": SPEC_GEN, "tiny": SPEC_TINY}[spec]
     with stubbed(OV, C, B, A):
         r = ctx.real_array("r", (2, 3), lo=-3, hi=3)
         ob = _two_center_basis(ctx, B, C, "a", sp, C.HORTON2_CONVENTIONS)
-        if prop == "symmetric":
+        if prop == "same-object":
+            # the same basis object at two different geometries: nothing may be inferred from the identity of the objects
+            # (two fixed geometries; the contraction coefficients are the symbolic part: the matrix elements are bilinear forms
+            # in them with concrete integrals, which the solver decides quickly in both directions)
+            r = np.array([[0.0, 0.0, 0.0], [0.9, -0.4, 1.1]])
+            r2 = np.array([[0.3, 0.2, -0.5], [-0.7, 1.0, 0.6]])
+            ob_copy = B.MolecularBasis([B.Shell(sh.icenter, sh.angmoms, sh.kinds, sh.exponents, sh.coeffs) for sh in ob.shells],
+                                       ob.conventions, ob.primitive_normalization)
+            o_same = OV.compute_overlap(ob, r, ob, r2)
+            o_copy = OV.compute_overlap(ob, r, ob_copy, r2)
+            ctx.oblige("same-object-at-two-geometries-equals-equal-copy", ctx.eq(o_same, o_copy, atol=1e-12), cls=spec)
+        elif prop == "symmetric":
             olp = OV.compute_overlap(ob, r)
             n = olp.shape[0]
             ctx.oblige("symmetric", And(*[ctx.eq(olp[i, j], olp[j, i] + (1.0 if twin and (i, j) == (1, 0) else 0.0), atol=1e-12)
@@ -428,6 +440,8 @@ def jobs(tier):
                 continue        # many exp terms: 10 min; thorough only
             out.append(job("C06", f"two-center[{spec},{prop}]", M, "h_two_center", dict(spec=spec, prop=prop),
                            budget_s=200 if tier == "quick" else 2400, max_validate=4))
+    for spec in ("tiny", "small", "gen"):
+        out.append(job("C06", f"two-center[{spec},same-object]", M, "h_two_center", dict(spec=spec, prop="same-object"), budget_s=400, max_validate=4))
     out.append(job("C06", "two-center-values[small]", M, "h_two_center_values", dict(spec="small"), budget_s=600, max_validate=6,
                    oblige_timeout_ms=30000))
     out.append(job("C06", "two-center-values[twin]", M, "h_two_center_values", dict(spec="small", twin=True), expect="cex",
